@@ -472,6 +472,9 @@ func genC15(g *Gen) {
 		}
 	}
 	// other ways of calling the script subcommands
+	for _, name := range []string{"text", "zzz", "tmpl", "Script", "script2", "listing ", "opsx", "a"} {
+		add("cli-misc", "return 2*1\n", "gen", "-type", name)
+	}
 	add("cli-misc", "return 2*1\n", "gen", "-type", "")
 	add("cli-misc", "return 2*1\n", "gen", "-type", "../templates/listing")
 	add("cli-misc", "return 2*1\n", "gen", "-tmpl", "/nonexistent/template")
@@ -495,6 +498,7 @@ func genC15(g *Gen) {
 	// search: expression strings
 	huge := "1" + strings.Repeat("0", 1999)
 	exprs := append([]string{}, c15Exprs...)
+	exprs = append(exprs, "7%0", "7 % 0", "5%2", "7%0x0", "7 % 0^3", "1&0", "8>>1", "2**3", "7 mod 0", "1|0", "~1", "7//0")
 	exprs = append(exprs, huge, "-"+huge, strings.Repeat("1+", 400)+"1", strings.Repeat(" ", 3000)+"7", "2^600+1", "0x"+strings.Repeat("f", 150))
 	limit := new(big.Int).Lsh(big.NewInt(1), 700)
 	for _, e := range exprs {
